@@ -357,6 +357,7 @@ def run_case(case, r: R):
         r.bad(f'waiter/hang/dry-run/{proc}', f'{e}')
         return
     pts = list(range(1, n + 2))
+    r.extra['exhaustive'] = len(pts) <= case['max_points']
     if len(pts) > case['max_points']:
         # keep the first messages (where procedures are most fragile) and spread the rest
         head = pts[:case['max_points'] // 2]
@@ -369,7 +370,6 @@ def run_case(case, r: R):
         except vloop.Hang as e:
             r.bad(f'waiter/hang/harness/{proc}/{cut}', f'{e} at cut index {k}')
         r.evals()
-    r.extra['exhaustive'] = False
     r.sample = {'procedure': proc, 'cut': cut, 'messages_in_dry_run': n, 'cut_points': pts}
 
 
